@@ -106,6 +106,10 @@ fn tt_of_table(t: &Table) -> TT {
     }
     x
 }
+fn deps_of(t: TT, nv: usize) -> usize {
+    let t = t & full(nv);
+    (0..nv).filter(|v| { let m = var_mask(*v); let sh = 1usize << v; ((t & m) >> sh) != (t & !m & full(nv)) }).count()
+}
 fn tt_bdd(p: BddPtr, nv: usize) -> TT {
     tt_of_table(&table_of(p, nv))
 }
@@ -210,7 +214,7 @@ fn semantic_safe(prog: &Prog) -> bool {
 pub fn gen(rng: &mut Rng, idx: usize, n: usize, thorough: bool) -> String {
     let frac = (idx * 100) / n.max(1);
     let maxv = if thorough { 7 } else { 6 };
-    let nv = (1 + (frac * (maxv - 1)) / 100 + if rng.chance(1, 4) { 1 } else { 0 }).clamp(1, maxv);
+    let nv = (1 + (frac * (maxv - 1)) / 60 + if rng.chance(1, 4) { 1 } else { 0 }).clamp(1, maxv);
     let perm0 = if rng.chance(1, 5) { (0..nv).collect::<Vec<_>>() } else { rng.perm(nv) };
     let mut s = format!("{nv}");
     for p in &perm0 {
@@ -295,7 +299,11 @@ pub fn gen(rng: &mut Rng, idx: usize, n: usize, thorough: bool) -> String {
             }
             pool += 1;
         }
-        target = if rng.chance(3, 4) { pool - 1 } else { rng.below(pool as u64) as usize };
+        // target: mostly the pool entry whose function depends on the most variables (oracle-side
+        // truth tables; ties -> the latest), otherwise any entry
+        let tabs: Vec<TT> = spec_tables(&parse(&s)).iter().map(tt_of_table).collect();
+        let best = (0..pool).max_by_key(|i| (deps_of(tabs[*i], nv), *i)).unwrap();
+        target = if rng.chance(3, 4) { best } else { rng.below(pool as u64) as usize };
     }
     s.push_str(&format!(" H {target} {} {}", rng.coin() as u8, cnf as u8));
     // order1: reverse of order0; order2: random
@@ -713,7 +721,7 @@ pub fn run(case: &str, st: &mut Stats) -> Outcome {
 
     st.bump(if is_cnf { "kind_cnf" } else { "kind_program" });
     st.bump(&format!("nvars={nv}"));
-    let deps = (0..nv).filter(|v| { let m = var_mask(*v); let sh = 1usize << v; ((tgt_t & m) >> sh) != (tgt_t & !m & full(nv)) }).count();
+    let deps = deps_of(tgt_t, nv);
     st.bump(&format!("target_depends_on={deps}"));
     let nontrivial = deps >= 2;
     Outcome { result: line, fails: cx.fails, nontrivial }
